@@ -78,7 +78,7 @@ def case_strategy(draw, variant):
         alt = [None if x is None else x % (2 * 10**17) for x in alt]
     if op == "nearby":
         alt = vspec["vals"]
-    return {"n": n, "keys": keys, "vals": [vspec], "mask": mask, "op": op, "kw": kw, "alt_vals": alt, "layout": layout,
+    return {"n": n, "warm": draw(S.warm()), "keys": keys, "vals": [vspec], "mask": mask, "op": op, "kw": kw, "alt_vals": alt, "layout": layout,
             "threshold": draw(st.integers(1, n)), "key_chunks": draw(st.integers(1, 5)),
             "sort": draw(st.sampled_from([True, True, False])), "null_pos": null_pos}
 
